@@ -140,6 +140,8 @@ def _prune(flavour, keep, maxkeep=4):
 
 def build_harness(name, flavour, extra=(), sources=None, link_lib=True, cxx=None, opt="-O0"):
     """Compile harness/<name>.cc against the flavour's library; returns path of the binary."""
+    if os.environ.get("VERIF_COVERAGE_BINDIR") and link_lib and flavour != "fuzz":   # bin/coverage: the same workloads on gcov-instrumented binaries
+        return os.path.join(os.environ["VERIF_COVERAGE_BINDIR"], name)
     d = build_lib(flavour) if link_lib else os.path.join(CACHE, "nolib-" + flavour)
     os.makedirs(d, exist_ok=True)
     fl = FLAVOURS[flavour]
